@@ -328,6 +328,16 @@ Definition release_query (qo : obj) : M unit := free_obj qo.
 (* ares_free_query *)
 Definition free_query (qo : obj) : M unit := detach_query qo ;; release_query qo.
 
+(* the tail of a successful ares_send_query: timeout list (by_timeout), the connection's query
+   list (an old node is destroyed first), query->conn, using_tcp *)
+Definition attach_frag (qo co : obj) (tcp : bool) : M unit :=
+  modify (fun s => set_bytmo (remove_nat qo (st_bytmo s) ++ [qo]) s) ;;
+  unlink_conn_node qo ;;
+  (let! c := get_conn co in
+   store co (CConn (set_c_queries (c_queries c ++ [qo]) c))) ;;
+  (let! q := get_query qo in
+   store qo (CQuery (set_q_conn (Some co) (set_q_tcp tcp q)))).
+
 Definition link_all (qo : obj) : M unit :=
   modify (fun s => set_lists (match st_lists s with [] => [[qo]] | l :: r => (l ++ [qo]) :: r end) s).
 
@@ -516,13 +526,7 @@ with send_query_write (fuel : nat) (qo : obj) (opened : bool) {struct fuel} : M 
                  | Some (TF s2 rc) => if Nat.eqb s2 sock then (let! _ := pop in ret rc) else ret ARES_SUCCESS
                  | _ => ret ARES_SUCCESS end) in
     if zeqb wrc ARES_SUCCESS then
-      (* timeout list, connection list *)
-      modify (fun s => set_bytmo (remove_nat qo (st_bytmo s) ++ [qo]) s) ;;
-      unlink_conn_node qo ;;
-      let! c := get_conn co in
-      store co (CConn (set_c_queries (c_queries c ++ [qo]) c)) ;;
-      let! q := get_query qo in
-      store qo (CQuery (set_q_conn (Some co) (set_q_tcp tcp q))) ;;
+      attach_frag qo co tcp ;;
       (* ares_probe_failed_server *)
       let! s := get in
       (if probe_ahead (st_tape s) then let! _ := send_nolock f KProbe true in ret tt else ret tt) ;;
